@@ -24,7 +24,8 @@ func init() {
 			"(6) input must be strictly ascending; the index entry's first key is the block's first entry and is recorded only after the block was written completely; (7) no arithmetic on 8/16-bit operands in the codecs (lengths are widened before adding); " +
 			"(8) an empty value is not a tombstone; the sstable iterator does not re-lock its own mutex; " +
 			"(9) block.NewReader keeps the slice it is given, so every caller hands over freshly allocated bytes; the decoder's sanity limits on key lengths are not below the 16-bit format maximum; " +
-			"(10) seek landing, structural part: the restart search of block.Iterator.Seek is classified by the update table of one iteration (lower-bound / floor) and a lower-bound search must examine the interval before the restart point it found; the index stores each block's FIRST key, so the index seek must step back to the last entry <= target — BOTH VIOLATED on this tree (recorded findings, demo in findings_demos/).",
+			"(10) seek landing, structural part: the restart search of block.Iterator.Seek is classified by the update table of one iteration (lower-bound / floor) and a lower-bound search must examine the interval before the restart point it found; the index stores each block's FIRST key, so the index seek must step back to the last entry <= target — BOTH VIOLATED on this tree (recorded findings, demo in findings_demos/). " +
+			"Added after blind round 5: the temporary file of a table is named after the table's own file name.",
 		NotDecided: "DECLARED UNDECIDED: that forward iteration yields every entry exactly once (decodeCurrent does not advance the cursor, so a raw per-file scan delivers the first entry of a block twice; the merging iterators hide it) and the exact landing position of Seek beyond the two structural conditions of (10) (e.g. what Seek answers at the end of a block). Also not decided: point-lookup completeness for all data sets, behaviour under arbitrary corruption.",
 		Rules:      []func(*Ctx, *Reporter){ruleFooterCodec, ruleIndexEntryCodec, ruleBlockEntryTrace, ruleBlockTrailer, ruleSstChecksums, ruleBloomKey, ruleBloomSiblings, ruleBuilderStrictOrder, ruleIndexFirstKey, ruleNoNarrowArithmetic, ruleEmptyNotDeleted, ruleTombstoneMarker, ruleSstReentrancy, ruleRetainedBuffersAreFresh, ruleReaderLimitsCoverFormat, ruleBlockSeekInterval, ruleIndexSeekAgreement, ruleTempFilePerTable},
 	})
